@@ -524,5 +524,33 @@ func TestC11(t *testing.T) {
 		}
 	}
 	e.done(true)
+	// the same matrix on tables of 16..65 features (with and without spare capacity), a guest that carries a source
+	// feature (which sorts to the front of the result) and an insertion in the middle
+	eb := enumPart(t, c11Prop, st, "op-matrix-big-tables")
+	for _, nf := range []int{15, 16, 17, 18, 33, 65} {
+		var big []Feat
+		for i := 0; i < nf; i++ {
+			var l Loc = lrg(3*i+1, 3*i+3)
+			if i%5 == 2 {
+				l = lco(l)
+			}
+			big = append(big, Feat{Key: []string{"gene", "CDS", "misc_feature"}[i%3], Loc: l, Quals: [][]string{{"label", fmt.Sprintf("x%d", i)}}})
+		}
+		L := 3*nf + 4
+		bigGuest := []Feat{{Key: "source", Loc: lrg(0, 3), Quals: [][]string{{"label", "ysrc"}}}, {Key: "gene", Loc: lrg(0, 2), Quals: [][]string{{"label", "y0"}}}}
+		for _, name := range c11OpNames {
+			for _, ts := range []bool{false, true} {
+				for _, carrier := range []string{"basic", "genbank"} {
+					for _, arg := range [][2]int{{0, 2}, {L / 2, 2}, {L - 3, 3}} {
+						op := c11Op{Op: name, I: arg[0], N: arg[1], S: "gene"}
+						if !eb.try(c11Case{L: L, GuestLen: 3, Shape: "spare", TableSpare: ts, Carrier: carrier, Feats: big, Guest: bigGuest, Ops: []c11Op{op, op}}) {
+							return
+						}
+					}
+				}
+			}
+		}
+	}
+	eb.done(true)
 	rapidPart(t, c11Prop, st, "rapid", pick(8000, 80000), c11Gen)
 }
